@@ -257,6 +257,7 @@ pub proof fn lemma_next_page_in_half(a: u64, e: u64, s: u64)
 //@ end
 
 //@ fn src/structures/paging/page.rs | impl<S: PageSize> Page<S> | from_start_address_unchecked
+//@ obligation C03 C03.Page_from_start_address_unchecked.helper_identity
 //@ A
     requires wf_v(start_address), is_mult(start_address.0 as int, S::SIZE as int),
     ensures r.start_address == start_address, wf_page(r),
@@ -285,6 +286,7 @@ pub proof fn lemma_next_page_in_half(a: u64, e: u64, s: u64)
 //@ end
 
 //@ fn src/structures/paging/page.rs | impl<S: PageSize> Page<S> | size
+//@ obligation C07 C07.Page_size.is_page_size
 //@ A
     ensures r == S::SIZE,
 //@ end
@@ -320,11 +322,13 @@ pub proof fn lemma_next_page_in_half(a: u64, e: u64, s: u64)
 //@ end
 
 //@ fn src/structures/paging/page.rs | impl<S: PageSize> Page<S> | range
+//@ obligation C07 C07.Page_range.bounds_as_given
 //@ A
     ensures r.start == start, r.end == end,
 //@ end
 
 //@ fn src/structures/paging/page.rs | impl<S: PageSize> Page<S> | range_inclusive
+//@ obligation C07 C07.Page_range_inclusive.bounds_as_given
 //@ A
     ensures r.start == start, r.end == end,
 //@ end
